@@ -535,7 +535,7 @@ def co_simulate(facts, c, s, cfg, text, ports, names, ink, outk, depth, seed, b,
 
 
 # ---------------------------------------------------------------- whole designs
-def check_g(ctx, facts, tier, seed):
+def check_g(ctx, facts, tier, seed, sm=None):
     """C01.g: the text generated for whole (hierarchical) designs, flattened and read as Verilog, against the
     netlist the same constructors elaborate to (evaluated through the leaf summaries)."""
     import random
@@ -547,6 +547,10 @@ def check_g(ctx, facts, tier, seed):
     from ..vfront import flatten, FrontError
     from .c03 import composites
     rnd = random.Random(seed + 101)
+    if sm is not None:
+        from ..facts import Facts
+        from .c02 import overlay_source, CASES_REL
+        facts = Facts(sm.with_overlay({CASES_REL: overlay_source()}))      # synthetic user-level classes used by the composites
     percfg = 1 if tier == 'quick' else 3
     designs = []
     for sp in SPECS:
@@ -698,7 +702,7 @@ def run(ctx, sm, facts):
     check_c(ctx, facts, inl, tier, ctx.seed)
     check_d(ctx, facts, body, tier, ctx.seed)
     ctx.rule('C01.g', 'whole hierarchical designs: generator evaluated over the elaborated design, text flattened and co-simulated with the netlist')
-    check_g(ctx, facts, tier, ctx.seed)
+    check_g(ctx, facts, tier, ctx.seed, sm)
     ctx.not_decided += ['equivalence of whole designs under event-driven simulation (interaction of several correct blocks)',
                         'parametric structural inlinables versus their own netlists (see C08)', 'transpiled blocks (C02)', 'Verilog x/z propagation',
                         'configurations outside the grid (widths above %d, wider constants)' % max(WIDTHS[tier])]
